@@ -246,6 +246,32 @@ def run(cx):
                 r_shadow.ok(f"{label[:60]}: shadows consistent", n=max(1, run_.oblig - run_.writes))
     cx.extra["programs"] = n_prog
 
+    # ---- C04-MUSTWRITE -----------------------------------------------------------------------
+    r = cx.rule("C04-MUSTWRITE", "every path through a non-sequenced actuator command drives the device's pins (the host model always applies the command): no path skips the writes because the tracked state already looks right", floor=60)
+    MUST = {
+        # confirmed on the pinned tree; the host classes apply these commands unconditionally
+        "LedOn": {"digitalWrite(7)"}, "LedOff": {"digitalWrite(7)"}, "LedToggle": {"digitalWrite(7)"}, "LedSetBrightness": {"analogWrite(7)"},
+        "LedBlink": {"digitalWrite(7)"}, "LedFadeIn": {"analogWrite(7)"}, "LedFadeOut": {"analogWrite(7)"},
+        "RGBLedOn": {"analogWrite(3)", "analogWrite(5)", "analogWrite(6)"}, "RGBLedOff": {"analogWrite(3)", "analogWrite(5)", "analogWrite(6)"},
+        "RGBLedSetColor": {"analogWrite(3)", "analogWrite(5)", "analogWrite(6)"}, "RGBLedBlink": {"analogWrite(3)", "analogWrite(5)", "analogWrite(6)"},
+        "ServoWrite": {"write"}, "ServoWriteMicroseconds": {"writeMicroseconds"},
+    }
+    for c_ in ("DCMotorSetSpeed", "DCMotorBackward", "DCMotorStop", "DCMotorCoast", "DCMotorInvert", "DCMotorRunFor"):
+        MUST[c_] = {"digitalWrite(2)", "digitalWrite(4)", "analogWrite(9)"}
+    for cname in kinds:
+        if cname not in MUST:
+            continue
+        dev = l2.device_of(cname)
+        b0 = l2.functions_of(pe.emit_program(setup=[l2.decl_node(dev)], loop=[]).text, ["setup"])["setup"][0]["body"]
+        for kw, node in pe.variants(cname, limit=24):
+            res = pe.emit_program(setup=[l2.decl_node(dev), node], loop=[])
+            body = l2.functions_of(res.text, ["setup"])["setup"][0]["body"][len(b0):]
+            mc = cxx.must_calls(body)
+            mc |= {c.split("(")[0] for c in mc}
+            missing = sorted(MUST[cname] - mc)
+            label = f"{cname}{ {k: v for k, v in kw.items() if k != 'name'} }"
+            r.check(not missing, f"{cname}/pins-driven-on-every-path[{','.join(missing)}]", (em, em.func("_emit_block")), f"{label}: some path through the command does not perform {missing} - the pins keep whatever an earlier command (stop, run_for, ...) left there while the host model applies the command", sample=label[:60])
+
     # ---- C04-BIND (shared with C08): the IR carries what the call supplied ------------------------
     from . import c08
     c08.bind_rule(cx, "C04-BIND", "C04-MAP", only=("Led", "RGBLed", "Servo", "DCMotor"), floor=100)
@@ -301,6 +327,88 @@ def run(cx):
     r.check(calls[-3:] == [f"digitalWrite({MOTOR_PINS[0]}, 0)", f"digitalWrite({MOTOR_PINS[1]}, 0)", f"analogWrite({MOTOR_PINS[2]}, 0)"], "DCMotorDecl/safe-stop", (em, em.func("emit")), f"a declared motor is configured with {calls}")
     g = l2.global_decls(res.text)
     r.check(g.get("__dc_mode_dev", ("", ""))[1] == '"coast"' and g.get("__dc_speed_dev", ("", ""))[1] in ("0.0f", "0.0", "0"), "DCMotorDecl/initial-shadow", (em, em.func("emit")), f"initial motor shadow: {g.get('__dc_mode_dev')}, {g.get('__dc_speed_dev')}")
+
+    # ---- C04-SERVOMAP ------------------------------------------------------------------------
+    r = cx.rule("C04-SERVOMAP", "host and firmware convert between servo angle and pulse width with the same map: the line through (min_angle, min_pulse) and (max_angle, max_pulse), compared as rational functions", floor=4)
+    from . import c19
+    from ..num import rat_equal
+    sm = mod("Actuators/Servo.py")
+    cx.consulted(sm)
+    c19.servo_maps(r, sm)
+    A, B, P, Q = "__servo_min_angle_dev", "__servo_max_angle_dev", "__servo_min_pulse_dev", "__servo_max_pulse_dev"
+    for cname, kw, var, want in (("ServoWrite", {"angle": "H_x"}, "__redu_pulse", f"{P} + (x - {A}) / ({B} - {A}) * ({Q} - {P})"),
+                                 ("ServoWriteMicroseconds", {"pulse_us": "H_x"}, "__redu_angle", f"{A} + (x - {P}) / ({Q} - {P}) * ({B} - {A})")):
+        res = pe.emit_program(setup=[l2.decl_node("Servo"), cls[cname](name="dev", **kw)], loop=[])
+        body = l2.functions_of(res.text, ["setup"])["setup"][0]["body"]
+        decls = {st["name"]: st["init"] for st in cxx.all_stmts(body) if st["k"] == "decl" and st["init"] is not None}
+        src_var = "__redu_angle" if cname == "ServoWrite" else "__redu_pulse"
+        ok = False
+        got = "?"
+        if var in decls:
+            try:
+                got = cxx.to_py(decls[var])
+                subst = {}
+                for k_, v_ in decls.items():
+                    if k_ not in (var, src_var):
+                        try:
+                            subst[k_] = ast.parse(cxx.to_py(v_), mode="eval").body
+                        except (ValueError, SyntaxError):
+                            pass
+                subst[src_var] = ast.parse("x", mode="eval").body
+                ok = rat_equal(ast.parse(got, mode="eval").body, ast.parse(want, mode="eval").body, subst, {})
+            except (ValueError, SyntaxError):
+                ok = False
+        r.check(ok, f"{cname}/linear-map", (em, em.func("_emit_block")), f"firmware computes {var} = {got}; the host's map is {want}")
+
+    # ---- C04-ROUND ---------------------------------------------------------------------------
+    r = cx.rule("C04-ROUND", "RGBLed.fade: host and firmware interpolate start + (target-start)*i/steps and round to the nearest integer; the firmware's integer kernel is evaluated for every divisor 1..16 over rising, falling and one-count ramps (law: |written - exact| <= 1/2, last step = target), ties are compared with the host's round()", floor=1000, exhaustive=True)
+    from fractions import Fraction
+    from .. import ckern
+    from ..src import walk_local, Locals
+    hm_rgb = mod("Actuators/RGBLed.py")
+    cx.consulted(hm_rgb)
+    hf = hm_rgb.func("RGBLed.fade")
+    hl = Locals(hf)
+    host_value, step_iter = c19.host_fade_kernel(hm_rgb)
+    r.check(step_iter == "range(1, steps + 1)", "host.fade/steps-1..steps", (hm_rgb, hf), "host fade must take steps i = 1..steps")
+    res = pe.emit_program(setup=[l2.decl_node("RGBLed"), cls["RGBLedFade"](name="dev", red="H_r", green="H_g", blue="H_b", duration_ms="H_d", steps="H_s")], loop=[])
+    b0 = l2.functions_of(pe.emit_program(setup=[l2.decl_node("RGBLed")], loop=[]).text, ["setup"])["setup"][0]["body"]
+    body = l2.functions_of(res.text, ["setup"])["setup"][0]["body"][len(b0):]
+    ramps = ((0, 255), (255, 0), (100, 101), (101, 100), (3, 200), (200, 3), (0, 1), (1, 0), (10, 17), (17, 10), (0, 7), (250, 255))
+    n_far = n_tie = 0
+    for s_ in range(1, 17):
+        for a, b in ramps:
+            k = ckern.Kern(env={"H_r": b, "H_g": a, "H_b": b, "H_d": 1000, "H_s": s_, "__rgb_red_dev": a, "__rgb_green_dev": b, "__rgb_blue_dev": a, "__rgb_state_dev": 0},
+                           types={"__rgb_red_dev": "int", "__rgb_green_dev": "int", "__rgb_blue_dev": "int", "__rgb_state_dev": "bool"})
+            try:
+                k.block(body)
+            except ckern.KernUnsupported as e:
+                raise AnalysisError(f"RGBLedFade kernel left the evaluable subset: {e}")
+            for pin, (lo, hi) in (("3", (a, b)), ("5", (b, a)), ("6", (a, b))):
+                seq = [ev[1][1] for ev in k.events if ev[0] == "analogWrite" and str(ev[1][0]) == pin]
+                if len(seq) != s_:
+                    r.fail("RGBLedFade/one-write-per-step", (em, em.func("_emit_block")), f"{lo}->{hi} in {s_} steps: pin {pin} is written {len(seq)} times")
+                    continue
+                for i_, v in enumerate(seq, 1):
+                    exact = lo + Fraction((hi - lo) * i_, s_)
+                    if abs(v - exact) > Fraction(1, 2) or (i_ == s_ and v != hi):
+                        n_far += 1
+                        if n_far <= 3:
+                            r.fail("RGBLedFade/nearest-integer", (em, em.func("_emit_block")), f"fade {lo}->{hi} over {s_} steps: step {i_} writes {v}, exact value {float(exact):.3f} (host computes {host_value(lo, hi, i_, s_)})", detail={"start": lo, "target": hi, "steps": s_, "step": i_})
+                        else:
+                            r.stat.obligations += 1
+                            r.stat.failed += 1
+                    else:
+                        hv = host_value(lo, hi, i_, s_)
+                        if v != hv:
+                            n_tie += 1
+                            if n_tie <= 2:
+                                r.fail("RGBLedFade/step-value=host-value", (em, em.func("_emit_block")), f"fade {lo}->{hi} over {s_} steps: step {i_} writes {v} on the device, the host model computes {hv} (exact {float(exact):.3f})", detail={"start": lo, "target": hi, "steps": s_, "step": i_})
+                            else:
+                                r.stat.obligations += 1
+                                r.stat.failed += 1
+                        else:
+                            r.ok(None)
 
     # ---- C04-COND ----------------------------------------------------------------------------
     r = cx.rule("C04-COND", "the branch decisions of time-sequenced commands are taken on the same quantities as in the host model (RGBLed.fade jumps straight to the target iff duration == 0 or the colour is already the target; blink/fade loop headers count what the host counts)", floor=4)
